@@ -111,3 +111,33 @@ pub fn first_diff(a: &[u8], b: &[u8]) -> String {
     }
     format!("common prefix of {} bytes; lengths {} vs {}", n, a.len(), b.len())
 }
+
+/// A reader that hands out at most `chunk` bytes per call - what a pipe or socket does.
+pub struct Chunked<'a> {
+    pub data: &'a [u8],
+    pub chunk: usize,
+}
+
+impl std::io::Read for Chunked<'_> {
+    fn read(&mut self, b: &mut [u8]) -> std::io::Result<usize> {
+        let n = b.len().min(self.chunk.max(1)).min(self.data.len());
+        b[..n].copy_from_slice(&self.data[..n]);
+        self.data = &self.data[n..];
+        Ok(n)
+    }
+}
+
+/// Parses the same bytes through one of several equivalent `BufRead` sources, chosen by `sel`
+/// (callers derive it from a hash of the bytes): 0 = the slice itself, 1..=5 = BufReaders of
+/// capacity 1 / 3 / 13 / 64 / 8192 over readers that return 1 / 2 / 5 / 7 / 4096 bytes per call.
+/// What is parsed must not depend on the source.
+pub fn with_source<T>(bytes: &[u8], sel: u64, f: impl FnOnce(&mut dyn std::io::BufRead) -> T) -> T {
+    match sel % 6 {
+        0 => f(&mut &bytes[..]),
+        1 => f(&mut std::io::BufReader::with_capacity(1, Chunked { data: bytes, chunk: 1 })),
+        2 => f(&mut std::io::BufReader::with_capacity(3, Chunked { data: bytes, chunk: 2 })),
+        3 => f(&mut std::io::BufReader::with_capacity(13, Chunked { data: bytes, chunk: 5 })),
+        4 => f(&mut std::io::BufReader::with_capacity(64, Chunked { data: bytes, chunk: 7 })),
+        _ => f(&mut std::io::BufReader::with_capacity(8192, Chunked { data: bytes, chunk: 4096 })),
+    }
+}
